@@ -214,9 +214,9 @@ run("for i in range(3):\n    channel.send((i, channel.receive()))", "a", b"\x00\
 ch = gw.remote_exec("c = channel.receive()\nc.send(c.receive() * 2)\nc.close()")
 c = gw.newchannel(); ch.send(c); c.send(21); T.append([c.receive(30)]); ch.waitclose(30)
 run("raise KeyError('k')")
-run("import threading\nchannel.send(channel.gateway.execmodel.backend)\nchannel.send(threading.current_thread() is threading.main_thread())")
+run("import threading\nchannel.send(channel.gateway.execmodel.backend)\nchannel.send(threading.current_thread() is threading.main_thread() if channel.gateway.execmodel.backend == 'main_thread_only' else None)")
 st = gw.remote_status()
-T.append([st.numchannels, st.execmodel])
+T.append([st.numchannels <= 1, st.execmodel])  # the worker forgets a finished channel just after it told us
 if bare and T[0][0] != "no execnet":
     T.insert(0, "NOT-BARE")
 # the kill path: a worker that ignores interrupts must still go away with terminate(timeout)
@@ -245,10 +245,23 @@ print(json.dumps(T, default=repr))
 '''
 
 
+# worker locale / IO encoding: the shipped source travels through the worker's text-mode stdin
+ENVS = {
+    "default": {},
+    "io-ascii": {"PYTHONIOENCODING": "ascii"},
+    "io-latin1": {"PYTHONIOENCODING": "latin-1"},
+    "c-locale": {"LC_ALL": "C", "LANG": "C", "PYTHONCOERCECLOCALE": "0", "PYTHONUTF8": "0"},
+}
+
+
 def cell(c):
-    path, py, model = c
+    path, py, model = c[:3]
     env = dict(os.environ)
     env["PYTHONPATH"] = "/repo/src"
+    env.update(ENVS[c[3] if len(c) > 3 else "default"])
+    if len(c) > 3 and path != "import":
+        # these workers run without -E (so that the encoding settings reach them): keep them bare
+        env.pop("PYTHONPATH", None)
     try:
         r = subprocess.run([sys.executable, "-c", CELL, path, py, model], capture_output=True, text=True, timeout=180, env=env, stdin=subprocess.DEVNULL, cwd="/tmp")
         out = r.stdout.strip().splitlines()[-1] if r.stdout.strip() else f"NO-OUTPUT rc={r.returncode} {r.stderr[-400:]}"
@@ -272,6 +285,12 @@ def run(tier: str, only=None) -> int:
                 if tier == "quick" and "3.11" in py and m == "main_thread_only" and path != "exec":
                     continue
                 cells.append((path, py, m))
+    for envname in ("io-ascii", "io-latin1", "c-locale"):
+        for m in ("thread",) if tier == "quick" else ("thread", "main_thread_only"):
+            cells.append(("import", "-", m, envname))
+            for path in ("exec", "via") if tier == "quick" else ("exec", "via", "socket"):
+                for py in interps[:1] if tier == "quick" else interps[:2]:
+                    cells.append((path, py.replace(" -E", ""), m, envname))
     res = pmap(lambda chunk: [cell(c) for c in chunk], [cells[i::16] for i in range(16)])
     flat = {c: o for chunk in res for c, o in chunk}
 
@@ -283,7 +302,7 @@ def run(tier: str, only=None) -> int:
         return json.dumps(T)
 
     for c, o in sorted(flat.items()):
-        ref = flat.get(("import", "-", c[2]))
+        ref = flat.get(("import", "-", c[2]) + tuple(c[3:]))
         a, b = norm(o, c[2]), norm(ref, c[2])
         try:
             ta, tb = json.loads(a), json.loads(b)
